@@ -85,6 +85,20 @@ CLAIMED = {
             "trusted: pyvc, z3, cvc5",
             "contract-based deductive verification: VCs generated from the AST of the real functions and their SQL text, "
             "discharged by z3 / cvc5"),
+    "C19": ("proof",
+            "Deductive proof, one task per datatype used by the two dictionaries (25 types + the EndSeqNo special case + "
+            "enumerated fields): the real SchemaField.validate_value and its helpers are executed on one arbitrary non-empty "
+            "string with int() / float() / strptime / re replaced by their accepted languages; every accepting path is "
+            "proved inside may_accept(T), every FIXMessageError path outside must_accept(T), no other exception "
+            "(regular-language membership decided by z3, no bound on the length of the value). Three genuine defects "
+            "repaired (fix: 4ceccba numbers, addfd70 date/time layouts, 62e8fb6 MULTIPLEVALUESTRING), one known finding "
+            "(C19-KF1 LENGTH unchecked, pinned by the suite).",
+            "DESIGN.md 4/C19 and 9",
+            "assumed: the languages of int / float / strptime / \\W (strings.py; not yet differentially validated in the "
+            "thorough tier), calendar validity as a predicate shared with the specification, must/may languages are this "
+            "module's reading of the statement with an explicit don't-care band; trusted: pyvc, z3's regex solver",
+            "contract-based deductive verification: VCs generated from the AST of the real validators, regular-language "
+            "obligations discharged by z3"),
     "C06": ("proof",
             "Deductive proof on the real AsyncFIXConnection._process_resend (send_msg, _state_set inlined): the loop over "
             "the recovered journal rows is proved by an inductive invariant (established / preserved / per-iteration "
